@@ -29,7 +29,9 @@ OnlyPairWorlds == UNION {Override(Baseline, {pr[1], pr[2]}) : pr \in HistPairs} 
 FaultWorlds == SingleWorlds \cup OnlyPairWorlds
 
 \* the honest twin: baseline, except that material W borrows from another honest quote is that quote's own
-Twin(f) == IF f.qeSigner = "otherLeaf" THEN [Baseline EXCEPT !.leafId = (IF f.leafId = "l1" THEN "l2" ELSE "l1")] ELSE Baseline
+\* (and it configures its root of trust the way the faulty world does: from the same files, inline strings or directly)
+Twin(f) == LET t == IF f.qeSigner = "otherLeaf" THEN [Baseline EXCEPT !.leafId = (IF f.leafId = "l1" THEN "l2" ELSE "l1")] ELSE Baseline
+           IN IF f.rotVia \in {"files", "inline", "mixed"} THEN [t EXCEPT !.rotVia = f.rotVia] ELSE t
 WorldOf(wid, f) == CASE wid = "T" -> Twin(f) [] wid = "W" -> f [] wid = "B" -> [Baseline EXCEPT !.modBranch = "modOk", !.sharedSigner = "shared"]
 
 VARIABLES fault, shared, mid, hist, k, stored, verdicts
@@ -42,7 +44,7 @@ HInit == /\ fault \in FaultWorlds /\ shared \in BOOLEAN
          /\ mid \in Mids
          /\ ~(hist[1].entry = "raw" /\ hist[2].entry = "raw")
          /\ \A i \in 1..2 : Realisable(WorldOf(hist[i].wid, fault), OptOf(hist[i]))
-         /\ (fault \in OnlyPairWorlds => mid = "addRoot")     \* double deviations serve those histories only
+         /\ (fault \in OnlyPairWorlds => mid \in {"none", "addRoot"})     \* double deviations serve those histories only
          /\ (hist[1].wid = "W" => mid = "addRoot")         \* the first call is on an honest world, except in the pool-ownership histories
          /\ (mid = "addRoot" => /\ ~shared /\ hist[1].wid = "W" /\ hist[2].wid = "W" /\ fault.rotVia \in {"files", "inline", "mixed"}
                                 /\ hist[1].entry = "msg" /\ hist[2].entry = "msg" /\ ~hist[1].gc /\ ~hist[2].gc /\ ~hist[2].cr)
